@@ -230,7 +230,15 @@ func (s IndexSchema) CheckCompatibleMap(pointMap PointAsMap) error {
 		case IndexTypeFloat:
 			switch v := v.(type) {
 			case float64:
+				// Not a number has no place in the order of the index, two
+				// of them are not even the same key. MessagePack can carry it.
+				if math.IsNaN(v) {
+					return fmt.Errorf("expected floating point number for property %s, got NaN", k)
+				}
 			case float32:
+				if math.IsNaN(float64(v)) {
+					return fmt.Errorf("expected floating point number for property %s, got NaN", k)
+				}
 				m[k] = float64(v)
 			default:
 				return fmt.Errorf("expected floating point number for property %s, got %T", k, v)
